@@ -22,9 +22,9 @@ func init() {
 			{"PEEP-BOUND", 15, rulePeepBound},
 			{"PEEP-DEPTH", 1, rulePeepDepth},
 			{"PEEP-SPLIT", 20, rulePeepSplit},
-			{"PEEP-GLUE", 10, rulePeepGlue},
-			{"PEEP-MEASURED", 8, rulePeepMeasured},
-			{"JOINSPLIT", 100, ruleJoinSplit},
+			{"PEEP-GLUE", 408, rulePeepGlue},
+			{"PEEP-MEASURED", 36, rulePeepMeasured},
+			{"JOINSPLIT", 115, ruleJoinSplit},
 		},
 	})
 }
